@@ -55,6 +55,7 @@ def impl_modes(c):
     if stateless(c) and o["status"] == 0 and c["end"] is not None:
         o["reset_same"] = reset_replay(c)
     o["reset_source_same"] = reset_with_source(c) if len(json.dumps(c["pre"])) % 3 == 0 else None
+    o["inrun"] = inrun_control(c) if len(json.dumps(c["pre"])) % 3 == 1 else None
     return o
 
 
@@ -97,6 +98,14 @@ def reset_with_source(c):
 
     class Sink(Entity):
         def handle_event(self, event):
+            # a stateless relay that mutates the event's metadata in place (a ttl counter), as
+            # add_context()/forward()-style models do
+            md = event.context.get("metadata") if event.context else None
+            if md and md.get("ttl", 0) > 0:
+                md["ttl"] -= 1
+                log.append(["ttl", self.now.nanoseconds, self.name, md["ttl"]])
+                return [Event(time=self.now + 0.25, event_type=event.event_type, target=sinks[(int(self.name[1:]) + 1) % 2],
+                              context={"metadata": md})]
             return None
 
     sinks = [Sink(f"k{i}") for i in range(2)]
@@ -108,7 +117,8 @@ def reset_with_source(c):
     period = 1_000_000_000 // rate
     for i in range(rng.randint(1, 5)):
         t = rng.choice([period, 2 * period, period, 1_000_000_000, 500_000_000, 0])      # ties with source ticks
-        sim.schedule(Event(time=Instant(t), event_type=f"pre{i}", target=sinks[rng.randrange(2)]))
+        ctx = {"metadata": {"ttl": rng.randint(1, 3)}} if rng.random() < 0.5 else None
+        sim.schedule(Event(time=Instant(t), event_type=f"pre{i}", target=sinks[rng.randrange(2)], context=ctx))
     _ = sim.control
 
     def watch():
@@ -129,7 +139,61 @@ def reset_with_source(c):
     sim.control.reset()
     watch()                       # reset() installs a new heap
     sim.run()
-    return [first == log, first[:10], log[:10]]
+    second = list(log)
+    del log[:]
+    sim.control.reset()           # and once more: the replayed events must not share state with the saved specs
+    watch()
+    sim.run()
+    if first == second and first != log:
+        second = list(log)
+    return [first == second, first[:10], second[:10]]
+
+
+def inrun_control(c):
+    """Control requests issued by MODEL code while the run is in progress (a handler calling
+    sim.control.pause() / add_breakpoint()), with the control surface attached but idle when the loop
+    was entered, an explicit end_time and no recorder: the request must take effect before the next
+    delivery, and resuming must complete the run exactly like an unobserved one."""
+    import random as _r
+    from happysimulator.core.control.breakpoints import EventCountBreakpoint
+    from happysimulator.core.entity import Entity
+    from happysimulator.core.event import Event
+    from happysimulator.core.simulation import Simulation
+    from happysimulator.core.temporal import Instant
+    rng = _r.Random(len(json.dumps(c["prog"])) * 104729 + len(c["pre"]))
+    n_ev = rng.randint(4, 12)
+    k = rng.randint(1, n_ev - 1)
+    how = rng.choice(["pause", "breakpoint"])
+    times = sorted(rng.choice([0, 1, 1, 2, 5, 5, 9]) * 100_000_000 for _ in range(n_ev))
+
+    def build(observed):
+        log = []
+
+        class Node(Entity):
+            def handle_event(self, event):
+                log.append([self.now.nanoseconds, event.event_type])
+                if observed and len(log) == k:
+                    if how == "pause":
+                        sim.control.pause()
+                    else:
+                        sim.control.add_breakpoint(EventCountBreakpoint(count=k + 1, one_shot=True))
+                return None
+        node = Node("n")
+        sim = Simulation(entities=[node], end_time=Instant.from_seconds(2.0))
+        for i, t in enumerate(times):
+            sim.schedule(Event(time=Instant(t), event_type=f"e{i}", target=node))
+        return sim, log
+    sim, plain = build(False)
+    sim.run()
+    sim, log = build(True)
+    sim.control.get_state()           # attached, nothing registered
+    sim.run()
+    at_pause = len(log)
+    paused = sim.control.is_paused
+    expect = k if how == "pause" else min(k + 1, n_ev)
+    if paused:
+        sim.control.resume()
+    return dict(how=how, k=k, n=n_ev, paused=paused, at_pause=at_pause, expect=expect, same=(log == plain))
 
 
 def oracle_modes(c, o):
@@ -144,6 +208,13 @@ def oracle_modes(c, o):
     if o.get("reset_source_same") is not None and not o["reset_source_same"][0]:
         out.append(dict(clause="reset() followed by run() repeats the original delivery sequence (sources re-primed, pre-run events replayed)",
                         first=o["reset_source_same"][1], second=o["reset_source_same"][2]))
+    ir = o.get("inrun")
+    if ir is not None:
+        if not ir["paused"] or ir["at_pause"] != ir["expect"]:
+            out.append(dict(clause="a pause or breakpoint requested by model code during the run takes effect before the next delivery it covers",
+                            observed=ir))
+        elif not ir["same"]:
+            out.append(dict(clause="a run paused from model code and resumed delivers exactly what the unobserved run delivers", observed=ir))
     return out
 
 
